@@ -17,7 +17,7 @@ REQUIRED = {"alias_free": {"quick": 200, "thorough": 1500}, "outside_band": {"qu
 ASSUMPTIONS = ["quadratic terms judged with fraction 2/3 and 1/2, cubic terms with 1/2 only (as the property states)", "float64 session"]
 AMBIENT = True            # thorough tier: the repository's own test-suite runs under the alias-free monitor (rv/ambient.py)
 REQUIRED_AMBIENT = {'ambient_alias_free': 100}
-TIMEOUT = {"quick": 900, "thorough": 3000}
+TIMEOUT = {"quick": 2400, "thorough": 7200}
 EPS = np.finfo(float).eps
 
 FORMS = {  # name -> (dims, channels(D), degree-compatible fractions)
